@@ -44,6 +44,8 @@ type Config struct {
 	// constraints and link sets registered on the child store: teams.chief -> staff (nullable fk index, back-references in
 	// staff.chiefOf) and the link collection staff.squads <-> teams.squadStaff
 	ChildFeatures bool `json:"childFeatures"`
+	// the system-entity constraint is registered on the child store only
+	SysOnChild bool `json:"sysOnChild"`
 }
 
 type Person struct {
@@ -330,7 +332,9 @@ func New(cfg Config) *Stores {
 	default:
 		panic(fmt.Sprintf("bad teamMode %q", cfg.TeamMode))
 	}
-	people.AddConstraint(boltz.NewSystemEntityEnforcementConstraint(people))
+	if !cfg.SysOnChild {
+		people.AddConstraint(boltz.NewSystemEntityEnforcementConstraint(people))
+	}
 	// symbols computed by the application (not stored): the first id in id order / the id once more
 	people.AddEntitySymbol(boltz.NewBoolFuncSymbol(people, "isFirst", func(id string) bool { return id == "p1" }))
 	people.AddEntitySymbol(boltz.NewStringFuncSymbol(people, "idAgain", func(id string) *string { return &id }))
@@ -343,6 +347,9 @@ func New(cfg Config) *Stores {
 	// ---- staff
 	people.GrantSymbols(staff)
 	people.GrantSymbols(interns)
+	if cfg.SysOnChild {
+		staff.AddConstraint(boltz.NewSystemEntityEnforcementConstraint(staff)) // the constraint guards what the child store handles, nothing else
+	}
 	staff.AddSymbol(FLead, ast.NodeTypeBool)
 	symGrade := staff.AddSymbol(FGrade, ast.NodeTypeString)
 	staff.IdxGrade = staff.AddUniqueIndex(symGrade)
